@@ -125,8 +125,8 @@ def proof_gate(pid, tier):
     ok = discharged == len(names) and not hits
     if tier == "thorough" and ok:
         t0 = time.time()
-        q = sh("timeout 2400 coqchk -silent -o -Q . Deltio %s" % " ".join("Deltio.Props." + x for x in stems), cwd=COQ,
-               check=False)
+        mods = ["Deltio.Props." + x for x in stems] + (["Deltio.Gen.LockCheck"] if spec.get("generated") else [])
+        q = sh("timeout 2400 coqchk -silent -o -Q . Deltio %s" % " ".join(mods), cwd=COQ, check=False)
         detail["coqchk"] = {"rc": q.returncode, "tail": q.stdout[-1500:], "wall_s": round(time.time() - t0, 1)}
         if q.returncode != 0:
             ok = False
@@ -183,6 +183,22 @@ def main():
     except Exception as e:
         gdetail = {"error": traceback.format_exc()[-2000:]}
 
+    # obligations generated from /repo's sources on this run (translator tie, DESIGN 4a)
+    gen_failed = []
+    for gname, gfn in spec.get("generated", []):
+        try:
+            okg, gd = gfn()
+        except Exception:
+            okg, gd = False, {"theorems": {}, "failed": "generated obligation crashed", "output": traceback.format_exc()[-2000:]}
+        gdetail.setdefault("theorems", {})
+        gdetail.setdefault("generated", {})[gname] = {k: v for k, v in gd.items() if k != "theorems"}
+        for n, st in gd.get("theorems", {}).items():
+            gdetail["theorems"][n] = st
+            obligations += 1
+            discharged += 1 if st.get("ok") else 0
+        if not okg:
+            gen_failed.append((gname, gd))
+
     if not okh:
         # /repo no longer builds with the hooks on: nothing can be tied to the code.
         violations.append(("build", "harness/deltio build failed", {"build_output": outh[-3000:]}))
@@ -213,6 +229,13 @@ def main():
                            {"theorems": gdetail.get("theorems"), "audit": gdetail.get("audit"),
                             "build": gdetail.get("build"), "error": gdetail.get("error"),
                             "coqchk": gdetail.get("coqchk")}))
+
+    for gname, gd in gen_failed:
+        violations.append(("proof", "generated obligation %s: theorem %s of Gen/LockCheck.v no longer checks against the "
+                           "sources" % (gname, gd.get("failed")),
+                           {"theorem": gd.get("failed"), "edges": gd.get("edges"), "awaits_under_lock": gd.get("awaits_under_lock"),
+                            "unanalysed": gd.get("unanalysed"), "output": gd.get("output"),
+                            "signature": "generated:%s:%s" % (gname, gd.get("failed"))}))
 
     # known findings: a violation whose signature is listed is reported as such
     known = load_known(pid)
@@ -254,6 +277,8 @@ def main():
         "wall_s": round(wall, 2),
         "violations": len(real),
     }
+    if "generated" in gdetail:
+        ev["coverage"]["generated_obligations"] = gdetail["generated"]
     if "coqchk" in gdetail:
         ev["coverage"]["coqchk"] = gdetail["coqchk"]
     evdir = os.path.join(CACHE, "evidence-alt") if ALT_REPO else os.path.join(ROOT, "evidence")
